@@ -49,6 +49,7 @@ type Report struct {
 	ImportsOfNote []Note         `json:"imports_of_note"`
 	Rewrites      map[string]int `json:"rewrites"`
 	APIFuncs      []string       `json:"api_funcs"`
+	TypeErrors    []string       `json:"type_errors"`
 }
 
 type edit struct {
@@ -133,11 +134,17 @@ func check(p *pkgInfo) error {
 		Defs:       map[*ast.Ident]types.Object{},
 		Selections: map[*ast.SelectorExpr]*types.Selection{},
 	}
-	conf := types.Config{Importer: chainImporter{}, Error: func(err error) {}}
-	tp, err := conf.Check(p.path, fset, p.files, p.info)
+	// type errors are tolerated (the Go build decides whether the tree compiles; an
+	// import the source importer cannot resolve only degrades the site classification)
+	conf := types.Config{Importer: chainImporter{}, Error: func(err error) {
+		if len(rep.TypeErrors) < 20 {
+			rep.TypeErrors = append(rep.TypeErrors, err.Error())
+		}
+	}}
+	tp, _ := conf.Check(p.path, fset, p.files, p.info)
 	p.tpkg = tp
-	if err != nil {
-		return fmt.Errorf("type-check %s: %v", p.path, err)
+	if tp == nil {
+		return fmt.Errorf("type-check %s produced no package", p.path)
 	}
 	return nil
 }
@@ -290,6 +297,10 @@ func analyse(p *pkgInfo, f *ast.File, name string) {
 		ip := strings.Trim(is.Path.Value, "\"")
 		if noteImports[ip] {
 			rep.ImportsOfNote = append(rep.ImportsOfNote, Note{ip, pos(is.Pos())})
+		}
+		if first := strings.Split(ip, "/")[0]; strings.Contains(first, ".") && ip != modPath && !strings.HasPrefix(ip, modPath+"/") {
+			// third-party code runs uninstrumented and may block or share state on its own
+			rep.Unmodelled = append(rep.Unmodelled, Note{"import of third-party package " + ip, pos(is.Pos())})
 		}
 	}
 	for _, d := range f.Decls {
